@@ -43,7 +43,7 @@ func intHeavyTables(r *RNG, n int) []*hTable {
 }
 
 func genAttributionHistory(r *RNG, cfg string) *hist {
-	h := &hist{cfg: cfg, ext: map[string][]string{}}
+	h := &hist{cfg: cfg, ext: map[string][]string{}, pad: r.Bool()}
 	h.tables = intHeavyTables(r, r.Range(1, 3))
 	o := histOpts{maxRows: 3}
 	ts := uint32(1600000000)
